@@ -7,6 +7,7 @@ import (
 	"go/types"
 	"reflect"
 	"regexp"
+	"time"
 )
 
 // nativeOf converts a fully concrete interpreter value to a native Go value (for json bridging).
@@ -275,5 +276,59 @@ func init() {
 	intrinsics["log.Println"] = mNop
 	intrinsics["runtime.Caller"] = func(e *Engine, a []Value) Value {
 		return Tuple{PtrInt{}, Str{S: "/repo/unknown.go"}, mkInt(64, 1), Bool{V: true}}
+	}
+}
+
+// package time: values are kept in time.Time's own representation (wall, ext, loc) with loc == nil
+// (UTC) and no monotonic reading; parsing and formatting are bridged to the native package on
+// concrete operands. Assumption stated with every use: the process time zone is UTC.
+const unixToInternal int64 = (1969*365 + 1969/4 - 1969/100 + 1969/400) * 86400
+
+func timeVal(t time.Time) Value {
+	t = t.UTC()
+	return Struct{mkInt(64, uint64(t.Nanosecond())), mkInt(64, uint64(t.Unix()+unixToInternal)), (*Value)(nil)}
+}
+
+func (e *Engine) nativeTime(v Value) time.Time {
+	s := v.(Struct)
+	wall, ext := s[0].(Int), s[1].(Int)
+	if wall.T != nil || ext.T != nil {
+		panic(unsupported("symbolic time value reaches the native time bridge"))
+	}
+	if wall.V>>63 != 0 {
+		panic(unsupported("time value with a monotonic reading"))
+	}
+	return time.Unix(int64(ext.V)-unixToInternal, int64(wall.V&(1<<30-1))).UTC()
+}
+
+func init() {
+	intrinsics["time.Parse"] = func(e *Engine, a []Value) Value {
+		layout, _ := e.concStrFork(a[0], "")
+		value, _ := e.concStrFork(a[1], "")
+		t, err := time.Parse(layout, value)
+		if err != nil {
+			return Tuple{timeVal(time.Time{}), e.mkError(err.Error())}
+		}
+		return Tuple{timeVal(t), Iface{}}
+	}
+	intrinsics["time.Unix"] = func(e *Engine, a []Value) Value {
+		return timeVal(time.Unix(concI(e, a[0]), concI(e, a[1])))
+	}
+	intrinsics["(time.Time).Format"] = func(e *Engine, a []Value) Value {
+		layout, _ := e.concStrFork(a[1], "")
+		return Str{S: e.nativeTime(a[0]).Format(layout)}
+	}
+	for name, f := range map[string]func(time.Time) int{
+		"Year": func(t time.Time) int { return t.Year() }, "Day": func(t time.Time) int { return t.Day() },
+		"Hour": func(t time.Time) int { return t.Hour() }, "Minute": func(t time.Time) int { return t.Minute() },
+		"Second": func(t time.Time) int { return t.Second() }, "Month": func(t time.Time) int { return int(t.Month()) },
+		"Nanosecond": func(t time.Time) int { return t.Nanosecond() }, "YearDay": func(t time.Time) int { return t.YearDay() },
+		"Weekday": func(t time.Time) int { return int(t.Weekday()) },
+	} {
+		f := f
+		intrinsics["(time.Time)."+name] = func(e *Engine, a []Value) Value { return mkInt(64, uint64(f(e.nativeTime(a[0])))) }
+	}
+	intrinsics["(time.Time).Unix"] = func(e *Engine, a []Value) Value {
+		return mkInt(64, uint64(e.nativeTime(a[0]).Unix()))
 	}
 }
